@@ -142,7 +142,7 @@ def thr2(p, res):
     for im in p.impls:
         if im["trait"] == "poulpy_hal::layouts::module::Backend" and not im["test"]:
             handles += 1
-    res.floor("THR-2", "Backend impls", handles, 4)
+    res.floor("THR-2", "Backend impls", handles, 4, ref_min=2)
 
 
 def thr3(p, res):
